@@ -548,6 +548,11 @@ class Pattern(Interp):
                 return self.arith(n, ctx, allv)
             return allv
         if d in api.KEEP_FUNCS:
+            dt = kwargs.get("dtype")
+            if d in ("numpy.array", "numpy.asarray", "numpy.asanyarray") and isinstance(dt, ExtRef) and dt.dotted.split(".")[-1].rstrip("_") == "bool" \
+                    and len(data) == 1 and isinstance(data[0], PV) and data[0].lvl == RAW:
+                self.declass.add((ctx.qname, norm(n)[:120]))
+                return PV(PAT, data[0].prov)            # np.asarray(x, dtype=bool) is x != 0
             if len(data) == 1 and isinstance(data[0], PV) and d in ("numpy.array", "numpy.asarray", "numpy.atleast_2d",
                                                                      "numpy.copy", "copy.deepcopy", "copy.copy"):
                 a = data[0]
